@@ -149,6 +149,28 @@ def as_list(sp):
     return _typed_list_to_list(sp)
 
 
+def near(rows, i, k=2):
+    """The rows around index i (with their indices), for readable violation messages on large arrays."""
+    lo = max(0, i - k)
+    return [(j, rows[j]) for j in range(lo, min(len(rows), i + k + 1))]
+
+
+def mismatch(got, want, things, others, ctx, index_is_container=False):
+    """Describe the first thing whose result differs: local evidence first, the (long) descriptor last."""
+    if len(got) != len(want):
+        return repr(("result length", len(got), "expected", len(want), ctx))
+    i = next(k for k in range(len(want)) if got[k] != want[k])
+    out = ["thing", i, things[i], "got", got[i], "want", want[i]]
+    if index_is_container:
+        for name, j in (("got_container", got[i]), ("want_container", want[i])):
+            if 0 <= j < len(others):
+                out += [name, others[j]]
+    out += ["n_things", len(things), "n_others", len(others), "things_near", near(things, i)]
+    if len(things) <= 8 and len(others) <= 8:
+        out += ["things", things, "others", others]
+    return repr(tuple(out) + ("ctx", ctx))
+
+
 def int_list(a):
     a = np.asarray(a)
     if a.dtype.kind not in "iu":
@@ -238,9 +260,9 @@ def lists(seq):
 def check_containment(x, c, things, conts, ctx):
     """things/conts: (start, end) lists matching the arrays x/c.  Returns the expected container indices."""
     exp = ref.fully_contained_in(things, conts)
-    got = strax.fully_contained_in(x, c)
-    check(int_list(got) == exp, "contain.fully_contained_in", (ctx, "things", things, "containers", conts,
-                                                                "got", np.asarray(got).tolist(), "want", exp))
+    got = int_list(strax.fully_contained_in(x, c))
+    if got != exp:
+        raise Violation("contain.fully_contained_in", mismatch(got, exp, things, conts, ctx, index_is_container=True))
     sp = as_list(strax.split_by_containment(x, c))
     check(len(sp) == len(conts), "contain.split_length", (ctx, things, conts, len(sp)))
     if len(conts):
@@ -297,29 +319,42 @@ def check_touching(x, c, things, conts, w, exact, ctx, exp_of=None):
     stats = set()
     for k, (l, r) in enumerate(rows):
         t = exp_of[conts[k]] if exp_of is not None else ref.touching(things, conts[k], w)
-        info = (ctx, "things", things, "containers", conts, "window", w, "container", k, "got", (l, r),
-                "touching", t)
-        check(0 <= l <= n and 0 <= r <= n, "touch.index_out_of_range", info)
-        if exact:
+        bad = None
+        if not (0 <= l <= n and 0 <= r <= n):
+            bad = "touch.index_out_of_range"
+        elif exact:
             if t:
-                assert t == list(range(t[0], t[-1] + 1)), "oracle: touching set not contiguous"
-                check((l, r) == (t[0], t[-1] + 1), "touch.window", info)
+                if exp_of is None:
+                    assert t == list(range(t[0], t[-1] + 1)), "oracle: touching set not contiguous"
+                if l != t[0] or r != t[-1] + 1:
+                    bad = "touch.window"
                 stats.add("touching")
             else:
-                check(l >= r, "touch.window_not_empty", info)
+                if l < r:
+                    bad = "touch.window_not_empty"
                 stats.add("none_touching")
-        else:
-            check(all(l <= i < r for i in t), "touch.window_misses_touching_thing", info)
-            if t and (l, r) != (t[0], t[-1] + 1) or (not t and l < r) or (t and t != list(range(l, r))):
+        elif t:
+            if not (l <= t[0] and t[-1] < r):  # t is ascending
+                bad = "touch.window_misses_touching_thing"
+            elif (l, r) != (t[0], t[-1] + 1) or len(t) != r - l:
                 stats.add("weak_window_wider_than_touching")
+        elif l < r:
+            stats.add("weak_window_wider_than_touching")
+        if bad:
+            raise Violation(bad, repr((
+                "container", k, conts[k], "window", w, "got_window", (l, r), "touching_things",
+                t[:3] + ["..."] + t[-3:] if len(t) > 6 else t, "things_near_window_edges", near(things, l), near(things, r),
+                "n_things", n, "ctx", ctx, "things", things if n <= 8 else "...",
+                "containers", conts if len(conts) <= 8 else "...")))
     sp = as_list(strax.split_touching_windows(x, c, window=w))
     check(len(sp) == len(conts), "touch.split_length", (ctx, things, conts, w, len(sp)))
     for k, (l, r) in enumerate(rows):
         g = np.asarray(sp[k])
-        want = x[l:r]
-        check(same_bytes(g, want), "touch.split_rows",
-              (ctx, "things", things, "containers", conts, "window", w, "container", k, "window_indices", (l, r),
-               "got_ids", g["id"].tolist()))
+        if not same_bytes(g, x[l:r]):
+            raise Violation("touch.split_rows", repr((
+                "container", k, conts[k], "window", w, "window_indices", (l, r), "got_ids", g["id"].tolist()[:20],
+                "n_things", n, "ctx", ctx, "things", things if n <= 8 else "...",
+                "containers", conts if len(conts) <= 8 else "...")))
     return stats
 
 
@@ -351,6 +386,8 @@ def _run_exh_touch(d, exact):
     ends = [b for _, b in things]
     assert (ends == sorted(ends)) == exact
     exp_of = {iv: ref.touching(things, iv, w) for iv in IVS}
+    if exact:
+        assert all(t == list(range(t[0], t[-1] + 1)) for t in exp_of.values() if t), "oracle: touching set not contiguous"
     stats = set()
     for conts, c in zip(space("C_ANY"), space_arrays("C_ANY", ec)):
         if len(conts) > maxc:
@@ -377,9 +414,11 @@ def run_exh_touch_weak(d):
 def check_prevnext(x, iv, things, ints, ctx):
     ep, en = ref.time_to_prev_next(things, ints)
     gp, gn = strax.abs_time_to_prev_next_interval(x, iv)
-    info = (ctx, "things", things, "intervals", ints)
-    check(int_list(gp) == ep, "prevnext.time_to_prev", info + ("got", np.asarray(gp).tolist(), "want", ep))
-    check(int_list(gn) == en, "prevnext.time_to_next", info + ("got", np.asarray(gn).tolist(), "want", en))
+    gp, gn = int_list(gp), int_list(gn)
+    if gp != ep:
+        raise Violation("prevnext.time_to_prev", mismatch(gp, ep, things, ints, ctx))
+    if gn != en:
+        raise Violation("prevnext.time_to_next", mismatch(gn, en, things, ints, ctx))
     return ep, en
 
 
